@@ -1639,6 +1639,9 @@ func (g *gen) burstScenario(idx, rounds int) {
 	}
 	cls := "/" + g.kind + "/ta" + b01(g.ta)
 	burst := func(kind string, calls []string) {
+		if len(calls) < 2 {
+			return // a burst needs two calls
+		}
 		for i := len(calls) - 1; i > 0; i-- {
 			j := r.Intn(i + 1)
 			calls[i], calls[j] = calls[j], calls[i]
